@@ -73,6 +73,7 @@ type world struct {
 	capAsserted bool // the per-host block cap is asserted in this run
 	contention  bool // contention swarm profile (see newWorld)
 	fifo        bool // reuse-order swarm profile (see newWorld)
+	staleRel    bool // stale-release swarm profile (see newWorld)
 }
 
 const forever = int(^uint(0) >> 1)
@@ -307,6 +308,15 @@ func newWorld(r *core.R) *world {
 	}
 	w.fifo = !w.contention && src.Chance(fp, "fifo_profile")
 	r.Cfg("fifo_profile", w.fifo)
+	// stale-release profile: many small blocks, few long-lived handles that keep gaining blocks, bulk releases
+	// (more than two addresses: the pre-fetched-handles path) of addresses that may have changed hands, slow
+	// callers - the window between a release's reads and its writes
+	sp := 120
+	if r.Armed("C19") {
+		sp = 350
+	}
+	w.staleRel = !w.contention && !w.fifo && src.Chance(sp, "stale_release_profile")
+	r.Cfg("stale_release_profile", w.staleRel)
 	nh := src.Range(2, 4, "hosts")
 	if w.contention && nh < 3 {
 		nh = 3
@@ -337,6 +347,9 @@ func newWorld(r *core.R) *world {
 		w.strict, w.autoAlloc = true, false
 	}
 	w.cooldown = []int{0, 0, 5, 30, 120}[src.Intn(5, "cfg_cooldown")]
+	if w.staleRel {
+		w.cooldown = 0
+	}
 	if (w.contention || w.fifo) && w.cooldown > 5 {
 		w.cooldown = 0 // addresses in cooldown keep a block non-empty; reclaim needs empty blocks
 	}
@@ -351,7 +364,7 @@ func newWorld(r *core.R) *world {
 
 	// pools: small, so that contention, exhaustion, borrowing and reclaim happen
 	np := src.Range(1, 3, "pools")
-	if w.contention || w.fifo {
+	if w.contention || w.fifo || w.staleRel {
 		np = 1
 	}
 	bases := []string{"10.0.0.0", "10.0.1.0", "10.0.2.0"}
@@ -362,6 +375,10 @@ func newWorld(r *core.R) *world {
 			bs = src.Range(30, 31, "pool_blocksize_c")
 			plen = bs - 1 // two blocks for three or more hosts
 		}
+		if w.staleRel {
+			bs = 30
+			plen = 27 + src.Intn(2, "pool_len_s")
+		}
 		if w.fifo {
 			bs = src.Range(28, 29, "pool_blocksize_f")
 			plen = bs - src.Intn(2, "pool_blocks_log2_f")
@@ -369,7 +386,7 @@ func newWorld(r *core.R) *world {
 		pv := &poolVersion{name: fmt.Sprintf("pool%d", i), cidr: mustCIDR(fmt.Sprintf("%s/%d", bases[i], plen)), blockSize: bs, from: 0, to: forever,
 			uses: []v3.IPPoolAllowedUse{v3.IPPoolAllowedUseWorkload, v3.IPPoolAllowedUseTunnel}}
 		kinds := []int{6, 2, 2, 1}
-		if w.fifo {
+		if w.fifo || w.staleRel {
 			kinds = []int{1, 0, 0, 0}
 		}
 		switch src.Weighted(kinds, "pool_kind") {
@@ -380,10 +397,10 @@ func newWorld(r *core.R) *world {
 		case 3:
 			pv.manual = true
 		}
-		if !w.fifo && src.Chance(150, "pool_nssel") {
+		if !w.fifo && !w.staleRel && src.Chance(150, "pool_nssel") {
 			pv.nsSel = "team == 'x'"
 		}
-		if !w.fifo && src.Chance(100, "pool_disabled") {
+		if !w.fifo && !w.staleRel && src.Chance(100, "pool_disabled") {
 			pv.disabled = true
 		}
 		w.pools = append(w.pools, pv)
